@@ -18,6 +18,7 @@
 package ucfg
 
 import (
+	"math"
 	"reflect"
 	"regexp"
 	"time"
@@ -829,13 +830,29 @@ func reifyDuration(
 	var d time.Duration
 	var err error
 
+	// largest number of whole seconds representable as time.Duration
+	const maxSeconds = math.MaxInt64 / int64(time.Second)
+
 	switch v := val.(type) {
 	case *cfgInt:
-		d = time.Duration(v.i) * time.Second
+		if v.i > maxSeconds || v.i < -maxSeconds {
+			err = ErrOverflow
+		} else {
+			d = time.Duration(v.i) * time.Second
+		}
 	case *cfgUint:
-		d = time.Duration(v.u) * time.Second
+		if v.u > uint64(maxSeconds) {
+			err = ErrOverflow
+		} else {
+			d = time.Duration(v.u) * time.Second
+		}
 	case *cfgFloat:
-		d = time.Duration(v.f * float64(time.Second))
+		ns := v.f * float64(time.Second)
+		if math.IsNaN(ns) || ns < math.MinInt64 || ns >= math.MaxInt64 {
+			err = ErrOverflow
+		} else {
+			d = time.Duration(ns)
+		}
 	case *cfgString:
 		d, err = time.ParseDuration(v.s)
 	default:
